@@ -302,6 +302,167 @@ example : (docImage true ⟨none, none, none, none, none, none, none, some (.px 
     ⟨200, true⟩ none 0 0 8 4 2 (8 / 4)).toOption.map (fun r => (r.1.width, r.1.height)) = some (some 4, some 2) := by
   decide +kernel
 
+/-! ### where a block-level image goes: the used margins of 10.3.3 and the placement -/
+
+/-- What 10.3.3 asks of the used margins, for all inputs: a given margin is kept; when the box fits and a margin
+is `auto`, the equation `margin-left + P + width + margin-right = containing width` holds with non-negative
+auto margins, equal when both are auto (the image is centred); when it does not fit, `auto` margins are 0. -/
+theorem used_margins_spec (P w cbw : Rat) (ml mr : Len) :
+    (∀ m, ml = some m → (usedMargins P w cbw ml mr).1 = m) ∧
+    (∀ m, mr = some m → (usedMargins P w cbw ml mr).2 = m) ∧
+    (P + w + ml.getD 0 + mr.getD 0 ≤ cbw → (ml = none ∨ mr = none) →
+      (usedMargins P w cbw ml mr).1 + P + w + (usedMargins P w cbw ml mr).2 = cbw ∧
+      (ml = none → 0 ≤ (usedMargins P w cbw ml mr).1) ∧ (mr = none → 0 ≤ (usedMargins P w cbw ml mr).2) ∧
+      (ml = none → mr = none → (usedMargins P w cbw ml mr).1 = (usedMargins P w cbw ml mr).2 ∧
+        (usedMargins P w cbw ml mr).1 = (cbw - P - w) / 2)) ∧
+    (cbw < P + w + ml.getD 0 + mr.getD 0 → usedMargins P w cbw ml mr = (ml.getD 0, mr.getD 0)) := by
+  unfold usedMargins
+  rcases ml with _ | l <;> rcases mr with _ | r <;> simp only [Option.getD] <;>
+    refine ⟨?_, ?_, ?_, ?_⟩ <;> intros <;> split_ifs <;> simp_all <;>
+    (try (refine ⟨?_, ?_⟩)) <;> (try linarith) <;> (try (intros; linarith))
+
+/-- `block_sizing_intrinsic` with the margins it ends with: those of 10.3.3 for the *intrinsic* width, computed
+from the margins the box came with (the intermediate run of the width equation leaves no trace). -/
+theorem block_sizing_margins (i : Intr) (cb : Cb) (b : RBox) (iw ih : Rat)
+    (hw : b.width = none) (hh : b.height = none)
+    (hiw : i.w = some iw) (hih : i.h = some ih) (hr : i.ratio = some (iw / ih))
+    (piw : 0 < iw) (pih : 0 < ih)
+    (hvw : viol iw b.minWidth (capMax b.minWidth b.maxWidth) = .ok)
+    (hvh : viol ih b.minHeight (capMax b.minHeight b.maxHeight) = .ok) :
+    ∃ b', blockReplacedSizing true i cb b = .ok b' ∧ b'.width = some iw ∧ b'.height = some ih ∧
+      b'.marginLeft = some (usedMargins b.pb iw cb.width b.marginLeft b.marginRight).1 ∧
+      b'.marginRight = some (usedMargins b.pb iw cb.width b.marginLeft b.marginRight).2 ∧
+      b'.marginTop = b.marginTop ∧ b'.pb = b.pb := by
+  have hr0 : iw / ih ≠ 0 := div_ne_zero (ne_of_gt piw) (ne_of_gt pih)
+  have hquot : iw / (iw / ih) = ih := by field_simp
+  rcases b with ⟨bw, bh, bml, bmr, bmt, bmb, pl, pr, bl, br, mnw, mxw, mnh, mxh, px, col⟩
+  simp only at hw hh hvw hvh
+  subst hw; subst hh
+  have e1 := rbwCore_point1 i cb ⟨none, none, bml, bmr, bmt, bmb, pl, pr, bl, br, mnw, mxw, mnh, mxh, px, col⟩ iw rfl rfl hiw
+  obtain ⟨ml1, mr1, px1, e2⟩ := blwCore_known_width
+    ⟨some iw, none, bml, bmr, bmt, bmb, pl, pr, bl, br, mnw, mxw, mnh, mxh, px, col⟩ cb iw rfl
+  have e3 := rbhCore_ratio i ⟨some iw, none, some ml1, some mr1, bmt, bmb, pl, pr, bl, br, mnw, mxw, mnh, mxh, px1, col⟩
+    iw (iw / ih) rfl rfl hr hr0
+  rw [hquot] at e3
+  have e4 : minMaxAutoReplaced ⟨some iw, some ih, some ml1, some mr1, bmt, bmb, pl, pr, bl, br, mnw, mxw, mnh, mxh, px1, col⟩ =
+      .ok ⟨some iw, some ih, some ml1, some mr1, bmt, bmb, pl, pr, bl, br, mnw, mxw, mnh, mxh, px1, col⟩ := by
+    simp [minMaxAutoReplaced, num, bind, Except.bind, mmarCore_no_violation iw ih _ _ _ _ hvw hvh, pure, Except.pure]
+  obtain ⟨ml2, mr2, px2, e5⟩ := blwCore_known_width
+    ⟨some iw, some ih, bml, bmr, bmt, bmb, pl, pr, bl, br, mnw, mxw, mnh, mxh, px1, col⟩ cb iw rfl
+  obtain ⟨u1, u2, _⟩ := blwCore_used_margins
+    ⟨some iw, some ih, bml, bmr, bmt, bmb, pl, pr, bl, br, mnw, mxw, mnh, mxh, px1, col⟩ cb iw rfl
+  simp only at e1 e2 e3 e5
+  rw [e5] at u1 u2
+  simp only at u1 u2
+  refine ⟨⟨some iw, some ih, some ml2, some mr2, bmt, bmb, pl, pr, bl, br, mnw, mxw, mnh, mxh, px2, col⟩, ?_, rfl, rfl,
+    u1, u2, rfl, rfl⟩
+  simp only [blockReplacedSizing, if_true, brwCore, bind, Except.bind, pure, Except.pure, e1, e2, e3, e4, e5]
+
+/-- **Where a block-level image goes** (CSS 2.1 10.3.4 → 10.3.3, and the placement of `block_replaced_box_layout`
+without floats): a `display: block` `<img>` of `pw × ph` px with initial sizing properties gets the used margins
+of 10.3.3 for the width `pw / res`; in an ltr containing block its margin box starts at the content edge of the
+containing block, in an rtl one it ends at the opposite content edge. -/
+theorem doc_block_image_margins (c : CssBox) (cb : Cb) (cbh : Len) (cx py pw ph res : Rat)
+    (hpw : 0 < pw) (hph : 0 < ph) (hres : 0 < res)
+    (hw : c.width = none) (hh : c.height = none) (hminw : c.minWidth = none) (hminh : c.minHeight = none)
+    (hmaxw : c.maxWidth = none) (hmaxh : c.maxHeight = none) :
+    ∃ b x y, docImage true c cb cbh cx py pw ph res (pw / ph) = .ok (b, x, y) ∧
+      b.width = some (pw / res) ∧ b.height = some (ph / res) ∧
+      b.marginLeft = some (usedMargins (resolvePercentages c cb.width cbh cx).pb (pw / res) cb.width
+        (resolvePercentages c cb.width cbh cx).marginLeft (resolvePercentages c cb.width cbh cx).marginRight).1 ∧
+      b.marginRight = some (usedMargins (resolvePercentages c cb.width cbh cx).pb (pw / res) cb.width
+        (resolvePercentages c cb.width cbh cx).marginLeft (resolvePercentages c cb.width cbh cx).marginRight).2 ∧
+      b.positionX = x ∧
+      (cb.rtl = false → x = cx) ∧
+      (cb.rtl = true → ∀ ml mr, b.marginLeft = some ml → b.marginRight = some mr →
+        x + ml + (pw / res + (resolvePercentages c cb.width cbh cx).pb) + mr = cx + cb.width) := by
+  obtain ⟨r1, r2, r3, r4, r5, r6⟩ := resolve_auto c cb.width cbh cx hw hh hminw hminh hmaxw hmaxh
+  have hres0 : res ≠ 0 := ne_of_gt hres
+  have hratio : pw / ph = (pw / res) / (ph / res) := by field_simp
+  set b0 := resolvePercentages c cb.width cbh cx with hb0
+  set b1 : RBox := { b0 with marginTop := some (b0.marginTop.getD 0), marginBottom := some (b0.marginBottom.getD 0) } with hb1
+  obtain ⟨b', hb', hw', hh', hml, hmr, hmt, hpb⟩ := block_sizing_margins
+    ⟨some (pw / res), some (ph / res), some (pw / ph)⟩ cb b1
+    (pw / res) (ph / res) (by simp [hb1, r1]) (by simp [hb1, r2]) rfl rfl (by rw [hratio])
+    (div_pos hpw hres) (div_pos hph hres)
+    (by simp [hb1, r3, r5, viol, capMax, gtMax, not_lt.mpr (le_of_lt (div_pos hpw hres))])
+    (by simp [hb1, r4, r6, viol, capMax, gtMax, not_lt.mpr (le_of_lt (div_pos hph hres))])
+  have hmt' : b'.marginTop = some (b0.marginTop.getD 0) := by rw [hmt]
+  have hpb1 : b1.pb = b0.pb := rfl
+  have hml1 : b1.marginLeft = b0.marginLeft := rfl
+  have hmr1 : b1.marginRight = b0.marginRight := rfl
+  rw [hpb1, hml1, hmr1] at hml hmr
+  rw [hpb1] at hpb
+  obtain ⟨x, y, hxy⟩ : ∃ x y, avoidCollisionsNoFloats b' cx cb py = .ok (x, y) := by
+    simp [avoidCollisionsNoFloats, num, hw', hml, hmr, hmt', bind, Except.bind, pure, Except.pure]
+  refine ⟨{ b' with positionX := x }, x, y, ?_, hw', hh', hml, hmr, rfl, ?_, ?_⟩
+  · simp [docImage, rasterIntrinsic, pyDiv, hres0, bind, Except.bind, pure, Except.pure, docImageI, hw, hh,
+      blockReplacedBoxLayout, ← hb0, ← hb1, hb', hxy]
+  · intro hltr
+    simp [avoidCollisionsNoFloats, num, hw', hml, hmr, hmt', bind, Except.bind, pure, Except.pure, hltr] at hxy
+    linarith [hxy.1]
+  · intro hrtl ml mr hml' hmr'
+    simp only at hml' hmr'
+    rw [hml] at hml'; rw [hmr] at hmr'
+    simp [avoidCollisionsNoFloats, num, hw', hml, hmr, hmt', bind, Except.bind, pure, Except.pure, hrtl] at hxy
+    have h1 := Option.some.inj hml'
+    have h2 := Option.some.inj hmr'
+    have hpb' : b'.paddingLeft + b'.paddingRight + b'.borderLeft + b'.borderRight = b0.pb := hpb
+    linarith [hxy.1, hpb', h1, h2]
+
+/-- **`margin: auto` centres a block-level image**: a `display: block` `<img>` of `pw × ph` px with initial sizing
+properties and `margin-left: auto; margin-right: auto`, whose border box fits in the containing block, has equal
+used margins `(cb_width − paddings − borders − pw / res) / 2` (not negative), and its margin box spans the content
+box of the containing block exactly (`position_x` is its content edge) — in ltr and in rtl alike: the border box
+starts that margin away from the edge. -/
+theorem doc_block_image_centered (c : CssBox) (cb : Cb) (cbh : Len) (cx py pw ph res : Rat)
+    (hpw : 0 < pw) (hph : 0 < ph) (hres : 0 < res)
+    (hw : c.width = none) (hh : c.height = none) (hminw : c.minWidth = none) (hminh : c.minHeight = none)
+    (hmaxw : c.maxWidth = none) (hmaxh : c.maxHeight = none)
+    (hml : c.marginLeft = none) (hmr : c.marginRight = none)
+    (hfit : (resolvePercentages c cb.width cbh cx).pb + pw / res ≤ cb.width) :
+    ∃ b x y, docImage true c cb cbh cx py pw ph res (pw / ph) = .ok (b, x, y) ∧
+      b.width = some (pw / res) ∧ b.height = some (ph / res) ∧
+      b.marginLeft = some ((cb.width - (resolvePercentages c cb.width cbh cx).pb - pw / res) / 2) ∧
+      b.marginRight = some ((cb.width - (resolvePercentages c cb.width cbh cx).pb - pw / res) / 2) ∧
+      0 ≤ (cb.width - (resolvePercentages c cb.width cbh cx).pb - pw / res) / 2 ∧
+      x = cx := by
+  obtain ⟨b, x, y, hdoc, hbw, hbh, hbl, hbr, hpx, hltr, hrtl⟩ :=
+    doc_block_image_margins c cb cbh cx py pw ph res hpw hph hres hw hh hminw hminh hmaxw hmaxh
+  have m1 : (resolvePercentages c cb.width cbh cx).marginLeft = none := by
+    cases cbh <;> simp [resolvePercentages, hml]
+  have m2 : (resolvePercentages c cb.width cbh cx).marginRight = none := by
+    cases cbh <;> simp [resolvePercentages, hmr]
+  rw [m1, m2] at hbl hbr
+  obtain ⟨_, _, hs, _⟩ := used_margins_spec (resolvePercentages c cb.width cbh cx).pb (pw / res) cb.width none none
+  obtain ⟨heq, h0, _, hc⟩ := hs (by simpa using hfit) (Or.inl rfl)
+  obtain ⟨hsame, hval⟩ := hc rfl rfl
+  rw [hval] at hbl
+  rw [← hsame, hval] at hbr
+  refine ⟨b, x, y, hdoc, hbw, hbh, hbl, hbr, by rw [← hval]; exact h0 rfl, ?_⟩
+  rcases hd : cb.rtl with _ | _
+  · exact hltr hd
+  · have := hrtl hd _ _ hbl hbr
+    linarith
+
+/-- Non-vacuity: an 8 × 4 px block image at 2dppx, `margin: 0 auto`, 1px + 10% padding and a 2px left border in a
+200px containing block (ltr, then rtl): used width 4, both margins (200 − 23 − 4) / 2, `position_x` = the content
+edge 7 of the containing block. -/
+example : (docImage true ⟨none, none, none, none, none, none, none, none, none, none, .px 1, .pct 10, 2, 0⟩
+      ⟨200, false⟩ none 7 0 8 4 2 (8 / 4)).toOption.map (fun r => (r.1.width, r.1.marginLeft, r.1.marginRight, r.2.1)) =
+      some (some 4, some (173 / 2), some (173 / 2), 7) ∧
+    (docImage true ⟨none, none, none, none, none, none, none, none, none, none, .px 1, .pct 10, 2, 0⟩
+      ⟨200, true⟩ none 7 0 8 4 2 (8 / 4)).toOption.map (fun r => (r.1.width, r.1.marginLeft, r.1.marginRight, r.2.1)) =
+      some (some 4, some (173 / 2), some (173 / 2), 7) := by
+  constructor <;> decide +kernel
+
+/-- …and a given `margin-right: 30px` with `margin-left: auto` in rtl: the left margin takes the rest and the margin
+box ends at the right content edge (7 + 200). -/
+example : (docImage true ⟨none, none, none, none, none, none, none, some (.px 30), none, none, .px 0, .px 0, 0, 0⟩
+      ⟨200, true⟩ none 7 0 8 4 2 (8 / 4)).toOption.map (fun r => (r.1.marginLeft, r.1.marginRight, r.2.1)) =
+    some (some 166, some 30, 7) := by
+  decide +kernel
+
 /-- **No declared `image-resolution` can make the intrinsic size divide by zero or come out negative**
 (repair d011d54; finding `image-resolution-zero-division`, filed under C07): the validator keeps a
 resolution only when it is positive, so the computed value is positive for every declaration (valid,
